@@ -147,14 +147,33 @@ func runManifestItems(c *Ctx) {
 			return calleeIs(info, call, "io/fs", "DirEntry.IsDir") || calleeIs(info, call, "io/fs", "FileInfo.IsDir") || calleeIs(info, call, "io/fs", "FileMode.IsDir")
 		}
 		e = ast.Unparen(e)
+		// the fact is keyed by the variable whose kind was tested (d, info): a closure must not inherit the test its
+		// enclosing function made on another value of the same name
+		rootOf := func(x ast.Expr) string {
+			for {
+				switch v := ast.Unparen(x).(type) {
+				case *ast.CallExpr:
+					x = v.Fun
+					continue
+				case *ast.SelectorExpr:
+					x = v.X
+					continue
+				case *ast.Ident:
+					if o := ObjOf(info, v); o != nil {
+						return fmt.Sprintf("%d", o.Pos())
+					}
+				}
+				return "?"
+			}
+		}
 		if isRegular(e) {
-			return "kind-ok", true, true
+			return "kind-ok:" + rootOf(e), true, true
 		}
 		// mode&ModeType == 0
 		if be, ok := e.(*ast.BinaryExpr); ok && be.Op == token.EQL {
 			if and, ok := ast.Unparen(be.X).(*ast.BinaryExpr); ok && and.Op == token.AND && strings.Contains(types.ExprString(and.Y), "ModeType") {
 				if z, ok := constInt(info, be.Y); ok && z == 0 {
-					return "kind-ok", true, true
+					return "kind-ok:" + rootOf(and.X), true, true
 				}
 			}
 		}
@@ -170,10 +189,10 @@ func runManifestItems(c *Ctx) {
 			r, rn := strip(be.Y)
 			pair := (isDirCall(l) && isRegular(r)) || (isRegular(l) && isDirCall(r))
 			if pair && be.Op == token.LAND && ln && rn {
-				return "kind-ok", false, true
+				return "kind-ok:" + rootOf(l), false, true
 			}
 			if pair && be.Op == token.LOR && !ln && !rn {
-				return "kind-ok", true, true
+				return "kind-ok:" + rootOf(l), true, true
 			}
 		}
 		return "", false, false
@@ -202,9 +221,28 @@ func runManifestItems(c *Ctx) {
 			}
 			// ---- KIND: where does Size/IsDir information come from? os.Stat (follows links) or DirEntry.Info (lstat)
 			fromLstat := false
+			var kindVars []string
 			ast.Inspect(cl, func(n ast.Node) bool {
 				if id, ok := n.(*ast.Ident); ok {
 					if o := info.Uses[id]; o != nil {
+						if named, ok := types.Unalias(o.Type()).(*types.Named); ok && (named.Obj().Name() == "DirEntry" || named.Obj().Name() == "FileInfo") {
+							kindVars = append(kindVars, fmt.Sprintf("%d", o.Pos()))
+							// a FileInfo obtained from a DirEntry: a test on the entry counts as well
+							if own := owningFunc(f, o); own != nil {
+								for _, d := range allDefs(own, o) {
+									ast.Inspect(d, func(m ast.Node) bool {
+										if i2, ok := m.(*ast.Ident); ok {
+											if o2 := own.Info().Uses[i2]; o2 != nil {
+												if n2, ok := types.Unalias(o2.Type()).(*types.Named); ok && n2.Obj().Name() == "DirEntry" {
+													kindVars = append(kindVars, fmt.Sprintf("%d", o2.Pos()))
+												}
+											}
+										}
+										return true
+									})
+								}
+							}
+						}
 						if named, ok := types.Unalias(o.Type()).(*types.Named); ok && named.Obj().Name() == "DirEntry" {
 							fromLstat = true
 						}
@@ -224,7 +262,13 @@ func runManifestItems(c *Ctx) {
 			})
 			isDirConst := types.ExprString(isDirE)
 			if fromLstat {
-				c.Check(kindSpec.Passed(f, r, "kind-ok"), "kind/"+base, call.Pos(), "walk entry appended only after a directory-or-regular-file test",
+				kindOK := false
+				for _, kv := range kindVars {
+					if kindSpec.Passed(f, r, "kind-ok:"+kv) {
+						kindOK = true
+					}
+				}
+				c.Check(kindOK, "kind/"+base, call.Pos(), "walk entry appended only after a directory-or-regular-file test",
 					"an entry described by lstat information (WalkDir entry, DirEntry.Info or os.Lstat) is appended without a regular-file/directory test: a symlink or device appears with a size that is not its readable content")
 			} else {
 				c.OKTrivial("kind/"+base, call.Pos(), "item built from os.Stat information (follows links): size equals readable content")
